@@ -69,6 +69,10 @@ func (nz *normalizer) WalkStatement(node SQLNode) (bool, error) {
 		nz.convertSQLVal(node)
 	case *ComparisonExpr:
 		nz.convertComparison(node)
+	case *GroupConcatExpr:
+		nz.convertSeparator(node)
+	case *ShowFilter:
+		nz.convertShowLike(node)
 	}
 	return true, nil
 }
@@ -80,8 +84,32 @@ func (nz *normalizer) WalkSelect(node SQLNode) (bool, error) {
 		nz.convertSQLValDedup(node)
 	case *ComparisonExpr:
 		nz.convertComparison(node)
+	case *GroupConcatExpr:
+		nz.convertSeparator(node)
 	}
 	return true, nil
+}
+
+// convertSeparator replaces the separator of group_concat: the tree keeps
+// this string literal as the text of the whole clause, not as an SQLVal.
+func (nz *normalizer) convertSeparator(node *GroupConcatExpr) {
+	if node.Separator == "" {
+		return
+	}
+	bvname := nz.newName()
+	nz.bindVars[bvname] = sqltypes.StringBindVariable(node.Separator)
+	node.Separator = " separator ':" + bvname + "'"
+}
+
+// convertShowLike replaces the pattern of SHOW ... LIKE, which the tree
+// keeps as a plain string.
+func (nz *normalizer) convertShowLike(node *ShowFilter) {
+	if node == nil || node.Like == "" {
+		return
+	}
+	bvname := nz.newName()
+	nz.bindVars[bvname] = sqltypes.StringBindVariable(node.Like)
+	node.Like = ":" + bvname
 }
 
 func (nz *normalizer) convertSQLValDedup(node *SQLVal) {
